@@ -372,6 +372,10 @@ class Statechart:
             if self.root:
                 raise StatechartError(
                     'Root already defined, {} must declare an existing parent state'.format(state))
+
+            # An history state must be in a CompoundState, it cannot be the root state
+            if isinstance(state, HistoryStateMixin):
+                raise StatechartError('{} cannot be used as root state'.format(state))
         else:
             parent_state = self.state_for(parent)
 
